@@ -68,7 +68,7 @@ if which=="mirror":
      "checks":"find(mirror(P), RightToLeft, reverse(text), n-s) is the mirror image of find(P, text, s): both fail or index' = n-index-length, same length, every capture of every named group mirrored, in the same order"}
 elif which=="groups":
     rec={"function":"the parser's capture numbering (countCaptures, scanGroupOpen, noteCaptureSlot, noteCaptureName, assignNameSlots, assignOrderedNameSlots) and the tables the writer derives from it",
-     "bound":"%d patterns: every sequence of 1..%d groups of the kinds unnamed, named n, named m, numbered 1, 2, 3 and 5, non-capturing, (?P<n>, flat and with the first or second group wrapping its successor, group i matching its own letter; modes default, ExplicitCapture, RE2, ECMAScript, MaintainCaptureOrder, RE2+MaintainCaptureOrder, RightToLeft, IgnoreCase+MaintainCaptureOrder"%(pats,4 if lvl>=2 else 3),
+     "bound":"%d patterns: every sequence of 1..%d groups of the kinds unnamed, named n, named m, numbered 1, 2, 3 and 5, non-capturing, (?P<n>, and the inline switches (?n) and (?-n), flat and with the first or second group wrapping its successor, group i matching its own letter; modes default, ExplicitCapture, RE2, ECMAScript, MaintainCaptureOrder, RE2+MaintainCaptureOrder, RightToLeft, IgnoreCase+MaintainCaptureOrder"%(pats,4 if lvl>=2 else 3),
      "checks":"numbers and names are those of the documented rule and each number holds the text of the parentheses the rule assigns to it; GetGroupNames/GetGroupNumbers/GroupNameFromNumber/GroupNumberFromName agree and numbers ascend; Match.Groups is in table order with the table's names and GroupByName/GroupByNumber return those groups; \\k<name> and \\number re-match exactly the group's text; ${name} and ${number} expand to it"}
 elif which=="replace":
     rec={"function":"replace, replaceRunnerLTR, replaceRunnerRTL (Replace / ReplaceFunc drivers) and the piece structure of Split",
